@@ -8,7 +8,7 @@ named hypotheses that the code does not establish (recorded findings) — the pr
 import re
 
 from vf.extract import extract_item
-from vf.unit import Unit
+from vf.unit import Unit, unoption_pred
 
 PRELUDE = r'''
 #![allow(unused_imports, unused_variables, dead_code, unused_mut, unused_parens)]
@@ -79,6 +79,19 @@ impl<F: Field> MulAddFusion<F> {
 }
 } // verus!
 '''
+
+
+CAND_OK = r'''verus! {
+/// what identify_candidates records for add k: a plain forward add (its out is no constant, no input slot and has no earlier definer) whose one operand is a
+/// product that may be fused into it (`fusable`), the other operand being the recorded addend
+pub open spec fn cand_ok<F: Field>(s: &MulAddFusion<F>, ops: Seq<Op<F>>, k: usize, e: (usize, Op<F>, WitnessId)) -> bool {
+    k < ops.len() && addmul_parts(ops[k as int]).is_some() && addmul_parts(ops[k as int]).unwrap().0 is Add
+    && ({ let (_kd, x, y, out) = addmul_parts(ops[k as int]).unwrap();
+          !cat(s.defs@, out) && !bwx(s.defs@, s.input_slots@, out, k as int) && (e.2 == x || e.2 == y) && fusable(ops, k as int, e.0 as int, e.1) })
+}
+}'''
+IDC_REQ = ('tables_describe_the_op_list', 'self.describes(ops@)')
+IDC_ENS = ('every_candidate_is_a_forward_add_with_a_sound_fusion', 'forall|k: usize| #[trigger] ret@.dom().contains(k) ==> cand_ok(self, ops@, k, ret@[k])')
 
 
 def types_from_repo():
@@ -322,6 +335,19 @@ def build():
             }
         }''')
 
+    # ---------------------------------------------------------------- identify_candidates
+    idc = u.extract(FM, IMPL, 'identify_candidates', 'MulAddFusion::identify_candidates')
+    idc.rewrite_re('R5', r'for \((\w+), (\w+)\) in (\w+)\.iter\(\)\.enumerate\(\) \{', r'for \1 in 0..\3.len() { let \2 = &\3[\1];', min_count=1)
+    idc.rewrite_re('R7', r'let mut candidates = HashMap::new\(\);', 'let mut candidates: HashMap<usize, (usize, Op<F>, WitnessId)> = HashMap::new();', min_count=0)
+    unoption_pred(idc)
+    idc.requires(*IDC_REQ)
+    idc.ensures(*IDC_ENS)
+    if 'for add_idx in 0..ops.len()' in idc.body:
+        idc.loop('for add_idx in 0..ops.len()', invariants=[
+            ('candidates_so_far', 'self.describes(ops@) && forall|k: usize| #[trigger] candidates@.dom().contains(k) ==> cand_ok(self, ops@, k, candidates@[k])'),
+        ])
+
+    u.text(CAND_OK)
     u.text('''verus! {
 pub proof fn lemma_occ_bound(s: Seq<WitnessId>, w: WitnessId) ensures 0 <= occ(s, w) <= s.len() decreases s.len() { if s.len() > 0 { lemma_occ_bound(s.drop_last(), w); } }
 pub proof fn lemma_occ_bound_all() ensures forall|s: Seq<WitnessId>, w: WitnessId| 0 <= #[trigger] occ(s, w) <= s.len()
@@ -339,7 +365,7 @@ pub proof fn lemma_total_len_take(v: Seq<Vec<WitnessId>>, k: int)
 }
 pub proof fn lemma_total_len_nonneg(v: Seq<Vec<WitnessId>>) ensures total_len(v) >= 0 decreases v.len() { if v.len() > 0 { lemma_total_len_nonneg(v.drop_last()); } }
 impl<F: Field> MulAddFusion<F> {''')
-    for f in (di, isc, us, ib, ind, tb, su, sd, tf):
+    for f in (di, isc, us, ib, ind, tb, su, sd, tf, idc):
         u.emit(f)
     u.text('}\n}')
     return u
